@@ -47,6 +47,7 @@ type tmpl struct {
 	initCpus string // cpuset.cpus the runtime creates the container with
 	initMems string
 	oomAdj   int64 // Burstable only: oom_score_adj the kubelet derived from the memory request (0 = 999)
+	shape    string // which optional sub-messages the runtime omits: "", no-linux, no-resources, no-cpu, no-memory, pod-no-linux
 }
 
 type ctrSpec struct {
@@ -96,6 +97,7 @@ type menu struct {
 	illFormed                                 bool  // also offer out-of-order lifecycle events
 	restartTruth                              bool  // offer restarts with a changed runtime truth (containers/pods gone, stopped, new)
 	restartCuts                               bool  // offer restarts from a cache saved in the middle of the last request
+	ghost                                     bool  // also offer events that name a pod/container the plugin has never seen
 }
 
 // ---------------------------------------------------------------------------
@@ -159,10 +161,17 @@ type world struct {
 	byID   map[string]*wctr // every incarnation ever created
 	rank   int
 	cfgIdx int
+	ghostPod *wpod // a pod the plugin is never told about through RunPodSandbox
+	ghostCtr *wctr
 }
+
+var ghostTmpl = &tmpl{name: "ghost", cpuReq: 1000, cpuLim: 1000, memLim: 100 << 20}
 
 func newWorld(s *scenario) *world {
 	w := &world{scn: s, byID: map[string]*wctr{}}
+	w.ghostPod = &wpod{slot: "px", spec: &podSpec{name: "ghost", ns: "default", qos: "Guaranteed", ctrs: []ctrSpec{{name: "c", t: ghostTmpl}}}}
+	w.ghostCtr = &wctr{slot: "cx", spec: &w.ghostPod.spec.ctrs[0], pod: w.ghostPod}
+	w.ghostPod.ctrs = []*wctr{w.ghostCtr}
 	n := 0
 	for i := range s.pods {
 		p := &wpod{slot: fmt.Sprintf("p%d", i), spec: &s.pods[i]}
@@ -183,6 +192,9 @@ func (w *world) ctr(slot string) *wctr {
 			return c
 		}
 	}
+	if slot == "cx" {
+		return w.ghostCtr
+	}
 	return nil
 }
 
@@ -191,6 +203,9 @@ func (w *world) pod(slot string) *wpod {
 		if p.slot == slot {
 			return p
 		}
+	}
+	if slot == "px" {
+		return w.ghostPod
 	}
 	return nil
 }
@@ -214,11 +229,15 @@ func (p *wpod) nri() *api.PodSandbox {
 	for k, v := range p.spec.labels {
 		lbl[k] = v
 	}
-	return &api.PodSandbox{
+	pod := &api.PodSandbox{
 		Id: p.slot, Name: p.spec.name, Uid: "uid-" + p.slot, Namespace: p.spec.ns,
 		Annotations: ann, Labels: lbl,
 		Linux: &api.LinuxPodSandbox{CgroupParent: p.cgroupParent()},
 	}
+	if len(p.spec.ctrs) > 0 && p.spec.ctrs[0].t.shape == "pod-no-linux" {
+		pod.Linux = nil
+	}
+	return pod
 }
 
 func encodeRes(u updSpec, cur res) *api.LinuxResources {
@@ -310,6 +329,23 @@ func (c *wctr) oomAdj() int64 {
 
 // nri builds the runtime's message for this container (fresh object: the cache keeps and mutates it).
 func (c *wctr) nri(state api.ContainerState, r res) *api.Container {
+	m := c.nriFull(state, r)
+	switch c.spec.t.shape {
+	case "no-linux":
+		m.Linux = nil
+	case "no-resources":
+		m.Linux.Resources = nil
+	case "no-cpu":
+		m.Linux.Resources.Cpu = nil
+	case "no-memory":
+		m.Linux.Resources.Memory = nil
+	case "no-oomadj":
+		m.Linux.OomScoreAdj = nil
+	}
+	return m
+}
+
+func (c *wctr) nriFull(state api.ContainerState, r res) *api.Container {
 	return &api.Container{
 		Id: c.id(), PodSandboxId: c.pod.slot, Name: c.spec.name, State: state,
 		Labels: map[string]string{}, Annotations: map[string]string{},
@@ -844,6 +880,37 @@ func (x *exec) enabled() []string {
 		}
 		if m.podRemove && p.life == lifeStopped {
 			evs = append(evs, "rmpod:"+p.slot)
+		}
+	}
+	if m.illFormed {
+		for _, c := range x.w.ctrs {
+			switch c.life {
+			case lifeRemoved:
+				evs = append(evs, "start:"+c.slot, "stop:"+c.slot, "remove:"+c.slot)
+				if len(x.scn.updates) > 0 {
+					evs = append(evs, "update:"+c.slot+":0")
+				}
+			case lifeCreated, lifeRunning:
+				if c.inc < maxInc {
+					evs = append(evs, "create:"+c.slot) // same name created again while the old one is alive
+				}
+			case lifeNone:
+				evs = append(evs, "start:"+c.slot, "stop:"+c.slot)
+			}
+		}
+		for _, p := range x.w.pods {
+			switch p.life {
+			case lifeRunning:
+				evs = append(evs, "run:"+p.slot, "rmpod:"+p.slot)
+			case lifeRemoved:
+				evs = append(evs, "stoppod:"+p.slot, "rmpod:"+p.slot)
+			}
+		}
+	}
+	if m.ghost {
+		evs = append(evs, "stoppod:px", "rmpod:px", "create:cx", "start:cx", "stop:cx", "remove:cx")
+		if len(x.scn.updates) > 0 {
+			evs = append(evs, "update:cx:0")
 		}
 	}
 	if m.sync {
